@@ -254,6 +254,8 @@ def flat_log(log):
             out += [TS("cut"), TN(o[1])]
         elif k == "err":
             out += [TS("err"), TN(o[1])]
+        elif k == "can":
+            out += [TS("can"), TN(1 if o[1] else 0)]
         i += 1
     return out
 
@@ -321,7 +323,7 @@ def with_timeout(seconds, fn):
 # sync macro run
 # --------------------------------------------------------------------------
 
-def run_sync(am: AM, events, cfg_opts=None, seed_ctx=None, per_event=True):
+def run_sync(am: AM, events, cfg_opts=None, seed_ctx=None, per_event=True, probe_can=False):
     """start() then send() each event.  Returns list of token lists: the state after
     start and after each send (log is cumulative)."""
     from xstate_statemachine import create_machine, SyncInterpreter
@@ -350,6 +352,8 @@ def run_sync(am: AM, events, cfg_opts=None, seed_ctx=None, per_event=True):
             rec.log.append(("err", err_code(exc)))
         snap()
         for ev in events:
+            if probe_can:
+                rec.log.append(("can", bool(it.can(make_event(ev)))))
             try:
                 with_timeout(4, lambda: it.send(make_event(ev)))
             except Timeout:
@@ -413,7 +417,7 @@ async def quiesce(it, extra=3):
         await asyncio.sleep(0)
 
 
-def run_async(am: AM, events, cfg_opts=None, seed_ctx=None, per_event=True):
+def run_async(am: AM, events, cfg_opts=None, seed_ctx=None, per_event=True, probe_can=False):
     from xstate_statemachine import create_machine, Interpreter
     rec = Rec(am)
     snaps = []
@@ -441,6 +445,8 @@ def run_async(am: AM, events, cfg_opts=None, seed_ctx=None, per_event=True):
         await quiesce(it)
         snap()
         for ev in events:
+            if probe_can:
+                rec.log.append(("can", bool(it.can(make_event(ev)))))
             await it.send(make_event(ev))
             await quiesce(it)
             if per_event:
